@@ -69,7 +69,8 @@ def C_idx_find(repo, clause):
         floor("Cidx", "typed index obligations in the search", len(obs), 14)
         for need, n in (("fold idx%len", 2), ("subscript", 12), ("mat-subscript", 3), ("map-lookup", 1), ("home-block", 1)):
             if kinds.get(need, 0) < n:
-                raise AnalysisError("C-idx: only %d `%s` obligations typed in the search (floor %d): coverage lost" % (kinds.get(need, 0), need, n))
+                from verif_sa.core import note_floor
+                note_floor("C-idx: only %d `%s` obligations typed in the search (floor %d): coverage lost" % (kinds.get(need, 0), need, n))
     # returned shape
     rt = f.ret
     ok = isa.is_(rt, "tup") and len(rt[1]) == 3 and all(isa.is_(x, "seq") for x in rt[1]) and \
@@ -78,7 +79,8 @@ def C_idx_find(repo, clause):
     obs.append(Ob("Cidx", clause, fnobj, fnobj.node, ok,
                   "the three results (index tuples, positions, rotations) are enumerated by the same match space and the indices are unit-cell atom indices: %s" % (str(rt)[:160]),
                   construct="return (indices, positions, rotations)", slot="return-shape",
-                  positive=isa.is_(rt, "tup") and len(rt[1]) == 3 and all(isa.is_(x, "seq") and x[1] for x in rt[1])))
+                  positive=isa.is_(rt, "tup") and len(rt[1]) == 3 and all(isa.is_(x, "seq") and x[1] for x in rt[1]) and not _ret_unknown(rt),
+                  undecided=not ok and _ret_unknown(rt)))
     # same fold expression in result, positions and grouping key
     obs.extend(_fold_agreement(repo, fnobj, clause))
     return obs
@@ -153,7 +155,8 @@ def C_idx_replace(repo, clause):
         floor("Cidx", "typed index obligations in the replacement", len(obs), 8)
     for need, n in (("extend-map-key", 1), ("extend-map-value", 1), ("set-op", 2), ("delete-index", 1), ("subscript", 4)):
         if kinds.get(need, 0) < n and not any(not o.ok for o in obs):
-            raise AnalysisError("C-idx: only %d `%s` obligations typed in the replacement (floor %d): coverage lost" % (kinds.get(need, 0), need, n))
+            from verif_sa.core import note_floor
+            note_floor("C-idx: only %d `%s` obligations typed in the replacement (floor %d): coverage lost" % (kinds.get(need, 0), need, n))
     # reported count = length of the filtered index list
     rets = [n for n in fnobj.own_nodes() if isinstance(n, ast.Return) and isinstance(n.value, ast.Tuple)]
     ok = False
@@ -161,10 +164,48 @@ def C_idx_replace(repo, clause):
         c = rets[0].value.elts[1]
         fc = calls_named(fnobj, "find_pattern_in_structure")
         tgt = fnobj.stmt_of(fc[0]).targets[0] if fc else None
-        ok = isinstance(c, ast.Call) and call_name(c) == "len" and isinstance(c.args[0], ast.Name) and isinstance(tgt, ast.Tuple) \
+        stale = None
+        if isinstance(c, ast.Name):
+            # a count held in a local: it must have been taken from the list as it is at the return (after the sub-sampling), not before
+            from verif_sa.dataflow import stale_names
+            uv = fnobj.rd.unique_value(c)
+            if uv is not None:
+                st_names = stale_names(fnobj, uv[0], rets[0], uv[1])
+                if st_names:
+                    stale = (c.id, ast.unparse(uv[1]), st_names)
+                else:
+                    c = uv[1]
+        ok = stale is None and isinstance(c, ast.Call) and call_name(c) == "len" and isinstance(c.args[0], ast.Name) and isinstance(tgt, ast.Tuple) \
             and c.args[0].id in [e.id for e in tgt.elts]
-    obs.append(Ob("Cidx", clause, fnobj, rets[0] if rets else fnobj.node, ok, "reported match count is the length of the (filtered) match list", slot="reported-count"))
+    else:
+        stale = None
+    obs.append(Ob("Cidx", clause, fnobj, rets[0] if rets else fnobj.node, ok,
+                  "reported match count is the length of the (filtered) match list" if stale is None else
+                  "reported match count `%s = %s` was taken BEFORE `%s` is re-assigned (the sub-sampling by replace_fraction): the number of matches FOUND is reported, not the number replaced" % (
+                      stale[0], stale[1], ", ".join(stale[2])), slot="reported-count", positive=stale is not None))
     return obs
+
+
+def _ret_unknown(rt):
+    """are the components the return-shape judgement reads unknown (the inference lost track, e.g. through a helper it cannot type) rather than conflicting?"""
+    try:
+        if not (isinstance(rt, tuple) and rt[0] == "tup" and len(rt[1]) == 3):
+            return True
+        comps = [rt[1][0][1], rt[1][1][1], rt[1][2][1], rt[1][0][2]]
+        if rt[1][0][2] is not None:
+            comps.append(rt[1][0][2][2])
+        return any(c is None for c in comps)
+    except Exception:
+        return True
+
+
+def _unknown_inside(t):
+    """does an inferred type contain an unknown (None) component?  Then the inference lost track (e.g. through a helper it cannot type), it did not find a conflict"""
+    if t is None:
+        return True
+    if isinstance(t, (tuple, list)):
+        return any(_unknown_inside(x) for x in t[1:]) if t and isinstance(t[0], str) else any(_unknown_inside(x) for x in t)
+    return False
 
 
 def C_find_gates(repo, clause):
@@ -812,10 +853,23 @@ def C_axis_replicate(repo, clause):
             r_ = _rowwise(t_, None, "all0")
             if r_ is not None and any(isinstance(x, ast.Name) and x.id == lp_.target.id for x in ast.walk(t_)):
                 verdict, where_ = r_, lp_.body[0]
-    obs.append(Ob("Caxis", clause, fn, where_ if where_ is not None else fn.node, verdict is True,
+    tol_based = None
+    if verdict is None and len(img_loops) == 1:
+        # the untranslated image identified through a TOLERANCE test on float translations instead of the exact integer multipliers
+        it0 = expand(fn, img_loops[0].iter)
+        for y in ast.walk(it0):
+            if isinstance(y, ast.Call) and call_name(y) in ("isclose", "allclose"):
+                tol_based = y
+    if tol_based is not None:
+        obs.append(Ob("Caxis", clause, fn, img_loops[0], False,
+                      "the image that is already present as the copy is identified by `%s` - a tolerance test on translation vectors, not the exact test on the integer multipliers: "
+                      "for a cell whose lattice vectors are numerically small (lengths in metres) EVERY image counts as untranslated and is dropped" % ast.unparse(tol_based)[:50],
+                      slot="zero-image-removed", positive="robust"))
+    else:
+        obs.append(Ob("Caxis", clause, fn, where_ if where_ is not None else fn.node, verdict is True,
                   "exactly the all-zero multiplier (already present as the copy) is removed%s" % (
-                      "" if verdict is not False else ": the test drops every image that has a ZERO component on some axis (or keeps the zero image)"),
-                  slot="zero-image-removed", positive=verdict is False, undecided=verdict is None))
+                          "" if verdict is not False else ": the test drops every image that has a ZERO component on some axis (or keeps the zero image)"),
+                      slot="zero-image-removed", positive=verdict is False, undecided=verdict is None))
     # the accumulator starts as a copy of self; every image is a copy of self
     cps = [n for n in fn.own_nodes() if isinstance(n, ast.Assign) and isinstance(n.value, ast.Call) and call_name(n.value) == "copy" and ast.unparse(n.value.func.value) == "self"]
     obs.append(Ob("Caxis", clause, fn, cps[0] if cps else fn.node, len(cps) == 2, "accumulator and each image start as copies of self (%d)" % len(cps), slot="copies"))
